@@ -196,6 +196,7 @@ def main(check_factory, argv=None):
     parser.add_argument("--selftest-determinism", action="store_true",
                         help="run every index twice on different shards and compare digests")
     parser.add_argument("--no-evidence", action="store_true")
+    parser.add_argument("--dump-digests", default=None, help="write {run index: digest} to this file")
     args = parser.parse_args(argv)
 
     started = time.time()
@@ -263,6 +264,10 @@ def main(check_factory, argv=None):
         for error in merged["errors"][:5]:
             print("HARNESS-ERROR: %s" % error)
         return 2
+
+    if args.dump_digests:
+        with open(args.dump_digests, "w") as handle:
+            json.dump({str(k): v for k, v in sorted(merged["digests"].items())}, handle, indent=0, sort_keys=True)
 
     if args.selftest_determinism:
         again = core.run_sharded(check_factory, binaries, args.seed, args.tier, indices, max(1, args.workers // 2 - 1))
